@@ -341,6 +341,14 @@ Theorem C20_gpd_geometry_roundtrip : forall shapely half orc g t,
 Proof. exact gpd_geometry_roundtrip. Qed.
 Print Assumptions C20_gpd_geometry_roundtrip.
 
+(* three-dimensional geometries: Shapely adds the Z marker after the keyword; same result *)
+Theorem C20_gpd_geometry_roundtrip_z : forall shapely half orc g t,
+  kind_tag g = Some t -> wkt_wf half g ->
+  shapely (write orc None g) = with_zm [LZ] (write orc None g) ->
+  WktM.read half t (shapely (write orc None g)) = Ok g.
+Proof. exact gpd_geometry_roundtrip_z. Qed.
+Print Assumptions C20_gpd_geometry_roundtrip_z.
+
 Theorem C20_gpd_shape_roundtrip : forall shapely half orc pd keys s t,
   (forall k u, pd k (Some (JDt u)) = PDt u) -> (forall k, is_pdt (Some (pd k None)) = false) ->
   kind_tag (sgeom s) = Some t -> wkt_wf half (sgeom s) ->
